@@ -300,6 +300,18 @@ func genC05Mask(t *rapid.T) c05Case {
 			c.Witnesses = append(c.Witnesses, c03Derive(t, p, mc))
 		}
 	}
+	// masks that read like a /regex/ once their asterisks are dropped
+	if chance(t, "slash-delimited-mask", 8) {
+		word := pick(t, "sdm-word", []string{"ads", "banner", "ad[s]", "a.s", "x|y"})
+		p := pick(t, "sdm-pre", []string{"*", "**", "*", ""}) + "/" + word + "/" + pick(t, "sdm-suf", []string{"", "*", "**"})
+		if !strings.HasPrefix(p, "*") && !strings.HasSuffix(p, "*") {
+			p = "*" + p
+		}
+		c = c05Case{Rule: c03RuleText(c03Case{Pattern: p})}
+		for _, w := range []string{"ads", "banner", "ad[s]", "a.s", "axs", "x", "y", "x|y"} {
+			c.Witnesses = append(c.Witnesses, "http://example.org/my"+w+".js", "http://example.org/"+w+"/", "http://example.org/q/"+w+"/x", "http://"+w+".example/")
+		}
+	}
 	return c
 }
 
